@@ -1182,7 +1182,7 @@ def entryCover : List EntryCover := [
   ⟨"_convolve.mean_filter", [``C10_filter_table_ok, ``C10_filter_iterator_refines, ``C10_alloc_pixel_loop_defined], [``C11_convolve_guards_imply_pre], "pre", "no model of its own (filter iterator + pixel loop); divisor for an empty neighbourhood not modelled"⟩,
   ⟨"_convolve.template_match", [``C10_filter_table_ok, ``C10_filter_iterator_refines, ``C10_alloc_pixel_loop_defined], [``C11_template_match_guards_imply_pre], "pre", "the raw template pointer `template[j]`, j < N2 is not modelled"⟩,
   ⟨"_convolve.find2d", [``C10_find2d_in_bounds, ``C10_alloc_fill_defined], [``C11_find2d_guards_imply_pre, ``C11_find2d_safe], "safe", ""⟩,
-  ⟨"_distance.dt", [``C10_dist_transform_in_bounds, ``C10_line_address], [``C11_dt_guards_imply_pre, ``C11_dt_safe], "safe", "definedness of the scratch arrays z, v, Df, ot is validated only (C10_alloc_validated_only)"⟩,
+  ⟨"_distance.dt", [``C10_dist_transform_in_bounds, ``C10_line_address, ``C10_alloc_dt_scratch_defined], [``C11_dt_guards_imply_pre, ``C11_dt_safe], "safe", "scratch arrays z, v never read before written: C10_alloc_dt_scratch_defined"⟩,
   ⟨"_histogram.histogram", [``C10_histogram_in_bounds, ``C10_histogram_needs_unsigned], [``C11_histogram_safe], "safe", ""⟩,
   ⟨"_histogram.otsu", [``C10_otsu_in_bounds], [``C11_otsu_safe], "safe", ""⟩,
   ⟨"_interpolate.spline_filter1d", [``C10_spline_filter1d_in_bounds, ``C10_line_address], [``C11_interpolate_order_guards_imply_pre], "pre", "`init_poles`, `pole[2]` not modelled"⟩,
